@@ -3,9 +3,9 @@ CFG = {
   'ready': True,
   'gens': ['gen_secrets.py', 'gen_htlc_tables.py'],
   'props_module': 'LdkModel.Props.C05',
-  'models': ['c05', 'chan'],
-  'model_bins': {'chan': 'chan'},
-  'model_drivers': {'chan': 'drv_chan'},
+  'models': ['c05', 'chan', 'mongate'],
+  'model_bins': {'chan': 'chan', 'mongate': 'chan'},
+  'model_drivers': {'chan': 'drv_chan', 'mongate': 'drv_chan'},
   'level_text': 'Lean 4 theorems about a model of CounterpartyCommitmentSecrets / build_commitment_secret that is generic in the index width B, the secret type, the bit flip and the hash (all 2^B indices, every seed, by induction on the number of inserts and on the bits — no enumeration; the code is the instance B = 48 whose width, slot count and statement shapes are re-read from chan_utils.rs on every run), plus a differential run of the real store against the compiled model with real SHA-256 on stateful op sequences',
   'level_note': 'Trusted: Lean kernel; axioms {propext, Classical.choice, Quot.sound}; tools/gen_secrets.py (regex shape check + constants); the finite correspondence sample; the executable SHA-256 of Prim/Sha256.lean is validated (FIPS vectors + byte-exact agreement with bitcoin_hashes on every op of the run), not proved, and no theorem unfolds it. secret_store_rejects assumes injectivity of flip-bit-0-then-hash (collision resistance of SHA-256) as a hypothesis. The channel-level theorems of C05 (revoke_only_after_newer_signed, at_most_one_outstanding, raa_checked, never_sign_revoked_holder) are a separate section added by the integrator.',
   'modelled': 'Model/Secrets.lean is a hand-written mirror of place_secret / derive_secret / provide_secret / get_secret / get_min_seen_secret / new / Writeable / Readable (empty TLV suffix only) and build_commitment_secret; tied by gen_secrets.py (shape + constants) and by the c05 correspondence',
